@@ -253,16 +253,17 @@ class Ctx:
 
         self.rounds_loop(once)
 
-    def run_machine(self, machine_cls, examples, steps, salt=0):
+    def run_machine(self, machine_cls, examples, steps, salt=0, replay=None):
+        """Stateful search.  Hypothesis' own shrinker is not used for machines
+        (it may spend its 5-minute cap per failure): a failing history is
+        minimised by bounded delta debugging over its concrete op list through
+        `replay(case, ctx)` (the same function --replay uses)."""
         from hypothesis import HealthCheck, Phase, seed, settings
         from hypothesis.stateful import run_state_machine_as_test
 
         self.engine.add("hypothesis-stateful")
 
         def once(rnd):
-            ph = [Phase.explicit, Phase.generate, Phase.target]
-            if not (self.tier == "quick" and rnd > 0):
-                ph.append(Phase.shrink)
             st = settings(
                 max_examples=max(1, examples if rnd == 0 else max(1, examples // 2)),
                 stateful_step_count=steps,
@@ -271,10 +272,16 @@ class Ctx:
                 report_multiple_bugs=False,
                 suppress_health_check=[HealthCheck.too_slow, HealthCheck.data_too_large,
                                        HealthCheck.filter_too_much],
-                phases=ph,
+                phases=[Phase.explicit, Phase.generate, Phase.target],
                 print_blob=False,
             )
-            run_state_machine_as_test(seed(self.hseed(salt + 31 * rnd))(machine_cls), settings=st)
+            try:
+                run_state_machine_as_test(seed(self.hseed(salt + 31 * rnd))(machine_cls), settings=st)
+            except BaseException as e:
+                v = e if isinstance(e, Violation) else _find_violation(e)
+                if v is None or replay is None:
+                    raise
+                raise ddmin(v, replay, self) from None
 
         self.rounds_loop(once)
 
@@ -292,6 +299,58 @@ class Ctx:
             "engine": sorted(self.engine),
             "extra": self.extra,
         }
+
+
+def ddmin(v, replay, ctx, budget=220):
+    """Shrink v.case["ops"] keeping the same failure signature; bounded."""
+    case = v.case
+    if not isinstance(case, dict) or not isinstance(case.get("ops"), list):
+        return v
+    best = v
+    tries = 0
+
+    def fails(ops):
+        nonlocal tries
+        tries += 1
+        c2 = dict(case, ops=ops)
+        sub = Ctx(ctx.prop_id, ctx.tier, ctx.seed, 0, 1, replaying=True)
+        try:
+            replay(jsonable_roundtrip(c2), sub)
+        except Violation as w:
+            if w.signature == v.signature:
+                return w
+        except Exception:
+            return None
+        return None
+
+    ops = list(case["ops"])
+    w0 = fails(ops)
+    if w0 is None:
+        return v  # not reproducible through replay: keep the original report
+    best = w0
+    n = 2
+    while len(ops) >= 1 and tries < budget:
+        chunk = max(1, len(ops) // n)
+        removed = False
+        i = 0
+        while i < len(ops) and tries < budget:
+            cand = ops[:i] + ops[i + chunk:]
+            w = fails(cand)
+            if w is not None:
+                ops, best, removed = cand, w, True
+            else:
+                i += chunk
+        if chunk == 1 and not removed:
+            break
+        if not removed:
+            n = min(len(ops), n * 2) if n < len(ops) else len(ops)
+        if chunk == 1 and removed:
+            continue
+    return best
+
+
+def jsonable_roundtrip(case):
+    return unjson(json.loads(json.dumps(jsonable(case))))
 
 
 class _Guard:
